@@ -7,7 +7,7 @@
  *         PU <bufsize> <qcap> <table> <unit1> | <unit2>              unit isolation, three runs (see run_parse)
  *   chunk = hex bytes, "-" = zero-length call (flush)
  *   table = entry;entry;...   entry = <hexpattern>:<tag>:<op>/<op>/...   op = name,arg,arg (see run_op)
- * Observation: event tokens in order; for P8 / P9 the two runs separated by "||".
+ * Observation: event tokens in order; for P8 / P9 the two runs separated by "||" (P9 starts with K<hex>: the input A left unconsumed).
  *   H<tag>:<hexhdr> handler entered        I<ok>:<v|-> int reader        L<ok>:<bits|-> float/double reader
  *   B<ok>:<v|-> bool   C<ok>:<tag|-> choice   N<ok>:<special>:<tag>:<bits>:<unit>:<base> number
  *   Y<ok>:<off>:<hex> characters / block     X<ok>:<hex>:<nul> copied text     A<ok>:<v,v..> array
@@ -82,7 +82,7 @@ static scpi_result_t generic_handler(scpi_t *ctx) {
             size_t cap = (size_t) o->a[1], n = 777; char *b = (char *) malloc(cap ? cap : 1); isreader = 1;
             memset(b, 0xAA, cap ? cap : 1);
             ok = SCPI_ParamCopyText(ctx, cap ? b : b + 1, cap, &n, (int) o->a[0]);
-            fprintf(EV, " X%d:", ok); if (ok) { ev_hex(b, n <= cap ? n : cap); fprintf(EV, ":%d", (n < cap && b[n] == 0) ? 1 : 0); } else fprintf(EV, "-");
+            fprintf(EV, " X%d:", ok); if (ok) { ev_hex(b, n <= cap ? n : cap); fprintf(EV, ":%d", (n < cap && b[n] == 0) ? 1 : 0); if (n > cap) fprintf(EV, ":OVER%zu", n); } else fprintf(EV, "-");
             free(b);
         } else if (!strcmp(o->name, "pA")) {
             int w = (int) o->a[0], s = (int) o->a[1]; size_t cap = (size_t) o->a[2], n = 777, k; isreader = 1;
@@ -148,6 +148,9 @@ static int parse_table(const char *txt, table_t *t) {
         if (!p1) continue; *p1 = 0; p2 = strchr(p1 + 1, ':'); if (!p2) continue; *p2 = 0;
         pl = h_unhex(e, (unsigned char *) c->pattern, sizeof c->pattern - 1); c->pattern[pl] = 0;
         c->tag = atoi(p1 + 1); c->nops = 0;
+        if (!strcmp(p2 + 1, "null")) {          /* an entry without a handler (callback == NULL), which the library permits */
+            t->table[t->n].pattern = c->pattern; t->table[t->n].callback = NULL; t->table[t->n].tag = c->tag; t->n++; continue;
+        }
         for (o = strtok_r(p2 + 1, "/", &so); o && c->nops < MAXOPS; o = strtok_r(NULL, "/", &so)) {
             op_t *op = &c->ops[c->nops++]; char *f, *sf = NULL; int k = 0;
             memset(op, 0, sizeof *op);
@@ -312,6 +315,7 @@ void run_parse(const char *input) {
         for (i = 0; i < na; i++) feed(&e1, chunksA[i]);
         fclose(EV); free(junk); EV = keep;
         seed_fresh(&e2, &e1, t, bufsize, qcap);
+        fprintf(EV, " K"); ev_hex(e1.ctx.buffer.data, e1.ctx.buffer.position);     /* what A left unconsumed in the input buffer */
         /* pending input of A (an unterminated tail) is part of the stream, not of the persistent state: drop it on both */
         e1.ctx.buffer.position = 0;
         e1.iface.error = cb_error_ev; e2.iface.error = cb_error_ev;
